@@ -2223,7 +2223,8 @@ func (e *wireExec) byzStep(s *XStep, w *wireTok, env *envelope) {
 		desc = fmt.Sprintf("cmd %q", c)
 	case "other_tag":
 		// the payload under the other type's tag, or an unknown tag
-		tags := []string{tagDlg, tagInv, "ucan/zzz@1.0.0", "ucan/", m.tag + "x", m.tag[:len(m.tag)-1], "ucan/dlg@1.0.0-rc.2", "UCAN/" + m.tag[5:], "ucan/dlg@2.0.0", "ucan/invoke@1", "ucan/inv", "ucan/dlg"}
+		tags := []string{tagDlg, tagInv, "ucan/zzz@1.0.0", "ucan/", m.tag + "x", m.tag[:len(m.tag)-1], "ucan/dlg@1.0.0-rc.2", "UCAN/" + m.tag[5:], "ucan/dlg@2.0.0", "ucan/invoke@1", "ucan/inv", "ucan/dlg",
+			m.tag + "+build.7", m.tag + "+", m.tag + "+" + tagInv, m.tag + "-rc.2", m.tag + " ", " " + m.tag, m.tag + "\x00", strings.ToUpper(m.tag), m.tag + "/", m.tag + "#1"}
 		nt := tags[s.Val%len(tags)]
 		if nt == m.tag {
 			return
